@@ -40,7 +40,7 @@ def arctanh(y):
 
 UFUNCS = {"exp": exp, "log": log, "sqrt": sqrt, "tanh": tanh, "arctanh": arctanh,
           "add": lambda a, b: a + b, "subtract": lambda a, b: a - b, "multiply": lambda a, b: a * b,
-          "true_divide": lambda a, b: a / b, "negative": lambda a: -a, "absolute": abs,
+          "true_divide": lambda a, b: a / b, "divide": lambda a, b: a / b, "negative": lambda a: -a, "absolute": abs,
           "less": lambda a, b: a < b, "less_equal": lambda a, b: a <= b, "greater": lambda a, b: a > b,
           "greater_equal": lambda a, b: a >= b, "equal": lambda a, b: a == b, "not_equal": lambda a, b: a != b,
           "square": lambda a: a * a,
